@@ -126,3 +126,12 @@ Theorem c20_source_tables :
   eof = strict_eof /\ eof = gw_eof.
 Proof. exact (conj strict_delims_model (conj gw_delims_model (conj strict_pchar_model (conj gw_pchar_model eof_model)))). Qed.
 Print Assumptions c20_source_tables.
+
+(* the trie only ever holds templates the strict parser returned: for EVERY list of template texts that parse, whatever the
+   order of the Adds and whatever path is looked up, a template the trie returns matches the path - no hypothesis left *)
+From GB Require Import Proofs.TrieParsedProofs.
+Theorem c20_trie_sound_parsed : forall texts ts p i t,
+  Forall2 (fun s t => st_parse s = Some t) texts ts ->
+  In i (find false (build ts) (c_slash :: p)) -> nth_error ts i = Some t -> template_matches t (c_slash :: p) = true.
+Proof. exact trie_sound_parsed. Qed.
+Print Assumptions c20_trie_sound_parsed.
